@@ -78,7 +78,7 @@ def run_C05(tier, seed, t0):
     gap_bits = 23 if tier == 'thorough' else 22
     specs = []
     for name in ALL:
-        for d in (['fwd', 'bwd'] if name in LABELLED else ['-']):
+        for d in (['fwd', 'bwd', 'ctx'] if name in LABELLED else ['-']):
             for c in (False, True):
                 specs.append(('harness.pseudo', 'pseudo_task', (name, d, c, li_bits, gap_bits)))
     res = pmap(specs)
@@ -122,7 +122,7 @@ def run_C20(tier, seed, t0):
 
 def _layout_specs(prop, tier, seed):
     from . import templates
-    tl = list(templates.CURATED)
+    tl = list(templates.CURATED) + templates.adjacency()
     gap_bits, k_bits, max_paths = 23, 34, 600
     if tier == 'thorough':
         tl += templates.enumerated(2, seed, 60)
@@ -173,7 +173,7 @@ def run_C09(tier, seed, t0):
 
 def _product_specs(prop, tier, seed):
     from . import templates
-    tl = list(templates.CURATED)
+    tl = list(templates.CURATED) + templates.adjacency()
     gap_bits, k_bits, max_paths = 23, 34, 600
     if tier == 'thorough':
         tl += templates.enumerated(2, seed, 60)
@@ -231,7 +231,7 @@ def run_C13(tier, seed, t0):
     from . import xhair
     w = _w(tier)
     specs = []
-    to = 240 if tier == 'thorough' else 75
+    to = 300 if tier == 'thorough' else 150
     slow = {'sepchars_insn', 'sepchars_bytes', 'sepchars_amo'}
     files = ['lexer.py', 'program_t.py' if tier == 'thorough' else 'program.py']
     ncond = 0
@@ -306,10 +306,11 @@ def run_C16(tier, seed, t0):
     from .purity import PROGRAMS, SEQS
     specs = [('harness.purity', 'frame_task', (i, c)) for i in range(len(PROGRAMS)) for c in (False, True)]
     specs += [('harness.purity', 'sequence_task', (i, m)) for i in range(len(SEQS)) for m in ('fresh', 'first-dicts')]
+    specs += [('harness.purity', 'incdirs_task', (s,)) for s in ('B', 'C')]
     res = pmap(specs)
     return finish('C16', tier, seed, res, t0,
                   bounds=dict(frame='%d symbolic programs x 2 modes: after every path (failing ones included) the structural fingerprint of everything reachable from the module (tables, partials, class dicts, function defaults, closures) is unchanged and holds no symbolic value' % len(PROGRAMS),
-                              sequences='%d two-call histories x 2 dictionary-passing modes: second result compared with the result of the second program alone for all values of both programs\' independent symbols (off/on product query)' % len(SEQS)),
+                              sequences='%d two-call histories x 2 dictionary-passing modes: second result compared with the result of the second program alone for all values of both programs\' independent symbols (product query); plus two projects assembled with one shared include_dirs list over a virtual file system (the caller\'s list must be unchanged, the second project\'s result must not depend on the first)' % len(SEQS)),
                   stubs=STUBS_ASM,
                   assumptions=['inductive step: if one call from the import-time state leaves the state unchanged, histories of any length do'] + STUBS_ASM,
                   outside=['PYTHONHASHSEED independence (needs separate processes; no solver formulation)', 'state outside the asm module (logging configuration, os)'])
@@ -320,13 +321,13 @@ def run_C17(tier, seed, t0):
     combos = [(pg, av) for pg in PROGRAMS for av in ARGVS]
     if tier != 'thorough':
         keep = {('range', a) for a in ARGVS} | {(pg, 'o_l') for pg in PROGRAMS} | {(pg, 'l_hex') for pg in PROGRAMS} | \
-               {('data', 'o_hex_bad'), ('li_label', 'hex_bad_l'), ('included', 'i_dir'), ('ok_only', 'defs_v'), ('parse', 'i_bad'), ('li_label', 'default')}
+               {('data', 'o_hex_bad'), ('li_label', 'hex_bad_l'), ('range', 'hex_sym'), ('li_label', 'hex_sym_l'), ('ok_only', 'hex_sym'), ('included', 'i_dir'), ('ok_only', 'defs_v'), ('parse', 'i_bad'), ('li_label', 'default')}
         combos = [c for c in combos if c in keep]
     specs = [('harness.cli', 'cli_task', c) for c in combos]
     res = pmap(specs)
     return finish('C17', tier, seed, res, t0,
                   bounds=dict(programs=len(PROGRAMS), option_sets=len(ARGVS), combinations=len(combos),
-                              symbolic='a signed 40-bit operand in the program (decides which pass refuses it) and the -c flag',
+                              symbolic='a signed 40-bit operand in the program (decides which pass refuses it), the -c flag, and the value of --hex-offset (32-bit, any spelling)',
                               old_files='bb.out, out.bin, labels.txt and both .hex files exist beforehand'),
                   stubs=STUBS_ASM + ['virtual file system recording every open-for-write and write', 'intelhex.bin2hex replaced by a recorder (third-party code)',
                                      'a formatted symbolic integer is a token that records value and format spec', 'logging.basicConfig is a no-op'],
@@ -368,11 +369,14 @@ def run_C18(tier, seed, t0):
 def run_C19(tier, seed, t0):
     K = 1 if tier == 'thorough' else 0
     specs = [('harness.dfu', 'dfu_task', ('C19', 'oversize', 'sym', 0, None, 'one'))]
+    for v in range(4):
+        for extra in (1, 2, 511, 1023, 1024, 1025):
+            specs.append(('harness.dfu', 'dfu_task', ('C19', 'capacity+%d' % extra, v, 0, None, 'one')))
     for L in ([1, 1024, 1025, 2049] if tier != 'thorough' else [1, 2, 1023, 1024, 1025, 2048, 2049, 3072, 3073]):
         specs.append(('harness.dfu', 'dfu_task', ('C19', L, L % 4, K, 'single', 'one')))
     res = pmap(specs)
     return finish('C19', tier, seed, res, t0,
-                  bounds=dict(oversize='symbolic length > capacity for every variant (one path covers all oversize lengths up to 2^30)',
+                  bounds=dict(oversize='symbolic length > capacity for every variant (one path covers all oversize lengths up to 2^30), plus the concrete lengths capacity+1, +2, +511, +1023, +1024, +1025 for each variant',
                               injection='one device error status (symbolic code 1..15) at a symbolically chosen erase / set-address / write operation of images of 1..3 pages; a second injection cannot occur once the run has stopped',
                               busy='0..%d polls' % K),
                   stubs=DFU_STUBS, assumptions=DFU_STUBS,
